@@ -13,7 +13,7 @@ try:
 except Exception as e:
     print(p,s,'NO REPORT',e); sys.exit()
 for x in d['failures']:
-    if x['key'] in ('CommodityChannelIndex:neutral-residue','MoneyFlowIndex:out-of-range-residue'): continue
+    if x['key'] in ('CommodityChannelIndex:neutral-residue','MoneyFlowIndex:out-of-range-residue','CommodityChannelIndex:non-finite-residue-underflow'): continue
     print(p,'seed',s,'FAIL',x['key'],'|',x['msg'][:300]); print('    ',x['case'][:400])
 PY
   done
